@@ -226,3 +226,17 @@ Theorem C11_layout_last_class_needed :
          Pem.LayoutInv.cview (Pem.LayoutInv.lright bs) m' <> Pem.LayoutInv.cview (Pem.LayoutInv.lleft bs) m.
 Proof. exact Pem.LayoutEx.layout_last_class_needed. Qed.
 Print Assumptions C11_layout_last_class_needed.
+
+(** What [gap_safe_b] excludes is layout-sensitive in the engine: with a Greedy AnyNumberOf as an
+    alternative of a OneOf tried at the start of a gap, the *length* of a whitespace run decides
+    between a clean parse and an unparsable section (no real dialect graph has this shape). *)
+Theorem C11_layout_greedy_option_sensitive :
+  exists g l l' fuel m,
+    Pem.LayoutInv.layout_related_b g l l' = true
+    /\ Pem.Model.parse_root g (Pem.Model.toks_of_list l) [] fuel (Pem.LayoutInv.cstart l) (Pem.LayoutInv.cend l) = Pem.Model.ROk m
+    /\ Pem.LayoutInv.clean_b g m = true
+    /\ (forall m', Pem.Model.parse_root g (Pem.Model.toks_of_list l') [] fuel (Pem.LayoutInv.cstart l') (Pem.LayoutInv.cend l') = Pem.Model.ROk m' ->
+                   Pem.LayoutInv.clean_b g m' = false)
+    /\ Pem.LayoutRel.gap_safe_b g = false.
+Proof. exact Pem.LayoutEx.layout_greedy_option_sensitive. Qed.
+Print Assumptions C11_layout_greedy_option_sensitive.
